@@ -21,7 +21,8 @@ LEVEL_TEXT = ('Every sequence of 1..2 (quick) / 1..3 (thorough; 4 for a reduced 
               'whose granularity depends on the segment after a non-CODE record) under 7 filter lists (incl. duplicate ids, several -f options) is '
               'bound by the rebuilt pbind; the output must parse and equal the filtered concatenation record for record; plist\'s table and totals '
               'are compared field by field.'
-              ' The pool includes granularity-1 code records of families whose default is 2 or 4; plist is also run over every pair and triple of a sub-pool in one invocation.')
+              ' The pool includes granularity-1 code records of families whose default is 2 or 4; plist is also run over every pair and triple of a sub-pool in one invocation.'
+              ' Added in the last round: ids taken off the filter list with +f.')
 LEVEL_NOTE = 'Trusted: pfile reader/writer; plist table parsed with a regular expression from its column layout.'
 RULE = 'file sequences x filters; non-trivial = >=2 data records involved'
 BOUNDS = {'quick': 'sequences<=2', 'thorough': 'sequences<=3, and <=4 over an 8-file sub-pool'}
